@@ -140,6 +140,73 @@ def _col_traces(kind, impl, case, keys, kkinds, labels_idx, columns, op, extra):
     return out
 
 
+DELEG = ["d_median", "d_quantile", "d_nth", "d_head", "d_tail", "d_agg_str", "d_agg_func", "d_apply", "d_ema",
+         "d_sum_mask", "d_mean_mask", "d_count_mask", "d_size_mask", "d_first_mask", "d_ngroups"]
+
+
+def _same_frames(a, b, names):
+    """facade result vs core result on the selected columns: same labels, same column names, same numbers."""
+    fa = a.to_frame(name=names[0]) if isinstance(a, pd.Series) else a
+    fb = b.to_frame(name=names[0]) if isinstance(b, pd.Series) else b
+    if not isinstance(fa, pd.DataFrame) or not isinstance(fb, pd.DataFrame):
+        return int(fa == fb) if np.isscalar(fa) and np.isscalar(fb) else 0
+    if list(map(str, fa.columns)) != list(map(str, fb.columns)) or fa.shape != fb.shape:
+        return 0
+    if [repr(x) for x in fa.index.tolist()] != [repr(x) for x in fb.index.tolist()]:
+        return 0
+    return int(np.array_equal(np.asarray(fa, dtype=float), np.asarray(fb, dtype=float), equal_nan=True))
+
+
+def _delegation_trace(case, meta, obj, keys, kkinds, vnames, allcols, facade):
+    """C17, delegation clause: the facade method returns what the core grouping returns for the selected value columns
+    (the core operations themselves are judged by C10 / C15 / C16 / C05)."""
+    from groupby_lib import GroupBy
+    meth = case["method"]
+    n = len(keys[0])
+    rng = np.random.default_rng(case.get("seed", 0))
+    mask = rng.random(n) < 0.6
+    narg = int(rng.integers(0, 3))
+    t = dict(meta, kind="deleg", impl="facade", method=meth, expected=[], got=[], eq=0)
+    try:
+        g, sel_names = facade()
+        f = {"d_median": lambda: g.median(), "d_quantile": lambda: g.quantile([0.25, 0.75]), "d_nth": lambda: g.nth(narg - 1 if narg else 0),
+             "d_head": lambda: g.head(narg), "d_tail": lambda: g.tail(narg), "d_agg_str": lambda: g.agg("max"), "d_agg_func": lambda: g.agg(np.nanmax),
+             "d_apply": lambda: g.apply(np.nansum), "d_ema": lambda: g.ema(alpha=0.5),
+             "d_sum_mask": lambda: g.sum(mask=mask), "d_mean_mask": lambda: g.mean(mask=mask), "d_count_mask": lambda: g.count(mask=mask),
+             "d_size_mask": lambda: g.size(mask=mask), "d_first_mask": lambda: g.first(mask=mask), "d_ngroups": lambda: g.ngroups}[meth]
+        rf = call(f)
+        fexc = None
+    except Exception as ex:
+        rf, fexc = None, ex
+    try:
+        karrs = [_kcol(k, kd) for k, kd in zip(keys, kkinds)]
+        gb = call(GroupBy, karrs[0] if len(karrs) == 1 else karrs)
+        sel_names = selected_names(case, vnames)
+        vals = pd.DataFrame({nm: np.array([np.nan if v == NULL else float(v) for v in allcols[nm]]) for nm in sel_names}, index=obj.index)
+        if case.get("series") or case.get("select") == "one":
+            vals = vals[sel_names[0]]
+        c = {"d_median": lambda: gb.median(vals), "d_quantile": lambda: gb.quantile(vals, q=[0.25, 0.75]), "d_nth": lambda: gb.nth(vals, narg - 1 if narg else 0),
+             "d_head": lambda: gb.head(vals, narg), "d_tail": lambda: gb.tail(vals, narg), "d_agg_str": lambda: gb.max(vals), "d_agg_func": lambda: gb.apply(vals, np.nanmax),
+             "d_apply": lambda: gb.apply(vals, np.nansum), "d_ema": lambda: gb.ema(vals, alpha=0.5),
+             "d_sum_mask": lambda: gb.sum(vals, mask=mask), "d_mean_mask": lambda: gb.mean(vals, mask=mask), "d_count_mask": lambda: gb.count(vals, mask=mask),
+             "d_size_mask": lambda: gb.size(mask=mask), "d_first_mask": lambda: gb.first(vals, mask=mask), "d_ngroups": lambda: gb.ngroups}[meth]
+        rc = call(c)
+    except Exception as ex:
+        # the core engine itself refuses this call (e.g. apply with no group at all): not a statement about the facade,
+        # provided the facade did not invent a result
+        t.update(out=("core_raise" if fexc is not None else "raise"), exc=type(ex).__name__, msg=("core raises, facade returns: " if fexc is None else "") + str(ex)[:140])
+        return t
+    if fexc is not None:
+        t.update(out="raise", exc=type(fexc).__name__, msg=str(fexc)[:160])
+        return t
+    fr = rf.to_frame(name=sel_names[0]) if isinstance(rf, pd.Series) else rf
+    t["out"] = "ok"
+    if isinstance(fr, pd.DataFrame) and meth not in ("d_size_mask",):
+        t["expected"], t["got"] = list(sel_names), [str(x) for x in fr.columns]
+    t["eq"] = _same_frames(rf, rc, sel_names if meth != "d_size_mask" else ["size"])
+    return t
+
+
 def run_case(case):
     """returns a list of traces: facade / core / pandas projections of one (frame, by, method)."""
     from groupby_lib import GroupBy
@@ -220,6 +287,9 @@ def run_case(case):
         g = call(obj.groupby_fast, **kw)
         g, sel_names = _select(g, case, vnames)
         return g, sel_names
+
+    if meth.startswith("d_"):
+        return [_delegation_trace(case, meta, obj, keys, kkinds, vnames, allcols, facade)]
 
     try:
         g, sel_names = facade()
